@@ -40,7 +40,7 @@ man = {
     "setup_cmd": "./setup.sh",
     "hooks": {
         "guard": "cargo feature verif_hooks",
-        "enable": "harness crate depends on temporal_rs with features [compiled_data, verif_hooks]; MIR dump uses --features tzdb,verif_hooks",
+        "enable": "harness crate depends on temporal_rs with features [compiled_data, verif_hooks]; the MIR dump is taken with --no-default-features --features compiled_data,verif_hooks",
         "baseline_off_cmd": "cd /repo && cargo test --workspace --no-fail-fast --offline",
         "source_commits": json.load(open(os.path.join(HERE, "hook_commits.json"))),
         "add_only": True,
